@@ -220,7 +220,19 @@ fn give(c: &mut Copy, b: &Block, w: &crate::sim::World, rng: &mut Rng) {
 		let base = crate::chain::BASE_HEIGHT;
 		// (nor the block of a funding transaction that already had the depth agreed for channel_ready: removing that
 		// closes the channel by design – known finding, judged on the originals in `openfork`)
-		if b.height > base + d + 1 && b.height - d + 5 >= w.peak_height.max(c.max_told) && b.height - d >= w.copy_reorg_floor {
+		// (the floor follows the originals; a funding transaction that reaches the agreed depth in the very block just
+		// delivered is not covered by it yet: ask the copy itself)
+		let locks_in_here = c.node.mgr.list_channels().iter().any(|ch| {
+			let conf_h = ch.funding_txo.and_then(|o| w.chain.confirmed_at.get(&o.txid).cloned());
+			match conf_h {
+				Some(hc) if hc + d > b.height && hc <= b.height => b.height + 1 - hc >= ch.confirmations_required.unwrap_or(1).max(1),
+				_ => false,
+			}
+		});
+		if w.trace {
+			eprintln!("  COPY style {:?} of node{} at height {}: own replay wanted d={} locks_in_here={} channels={:?}", c.style, c.node.idx, b.height, d, locks_in_here, c.node.mgr.list_channels().iter().map(|ch| (ch.funding_txo.map(|o| o.txid), ch.confirmations, ch.confirmations_required, ch.is_channel_ready)).collect::<Vec<_>>());
+		}
+		if !locks_in_here && b.height > base + d + 1 && b.height - d + 5 >= w.peak_height.max(c.max_told) && b.height - d >= w.copy_reorg_floor {
 			let fork = w.chain.block_at(b.height - d);
 			if c.style == Style::ShallowReorgs {
 				let loc = BlockLocator::new(fork.header.block_hash(), fork.height);
